@@ -181,7 +181,7 @@ def r_qdstrings(rng, vs):
 
 
 def r_exts(rng, exts):
-    return "".join(sp(rng) + rng.choice(["X-", "x-"]) + k + sp(rng) + r_qdstrings(rng, vs) for k, vs in exts.items())
+    return "".join(sp(rng) + "X-" + k + sp(rng) + r_qdstrings(rng, vs) for k, vs in exts.items())
 
 
 def render(rng, kind, d) -> str:
